@@ -104,18 +104,14 @@ Definition declares_generic (bases : list val) (ts : list val) : Prop :=
 Definition direct_generic (w : world) (c : nat) (ts : list val) : Prop :=
   exists bases, lookup_ob w c = Some bases /\ declares_generic bases ts /\ distinct_keys [] ts = true.
 
-(* shapes 2 and 3, full statement.  The __orig_bases__ found for the class are
+(* shapes 2 and 3.  The __orig_bases__ found for the class are
      <extra bases> ++ D[xs] :: <further bases, none of them Generic[..]>
-   where D declares Generic[ts] together with the mixin (the mixin class `mx` is on D's MRO), and every extra
-   base in front of D[xs] is a class, or a parametrised base that has nothing to do with the mixin
-   (List[int], P[int] with a generic class P that does not use the mixin ...), or a parametrised base the scan of
-   _get_types passes over (see passes_over).  "Extra mixin bases in any order" of the property text.
-   FALSE on the pinned tree for the parametrised non-mixin bases in front: C20_type_vars_foreign_base_refuted. *)
-Definition on_mro (w : world) (mx d : nat) : bool :=
-  match find_cls d (w_classes w) with Some r => existsb (Nat.eqb mx) (c_mro r) | None => false end.
-
-(* what the loop over __orig_bases__ in _get_types moves past without consequences: a class, or a
-   parametrised base whose origin has __orig_bases__ none of which is Generic[..] *)
+   where D declares Generic[ts] together with the mixin (the mixin class is on D's MRO), and every extra base in
+   front of D[xs] is a class, or a parametrised base that has nothing to do with the mixin (List[int], P[int] with
+   a generic class P that does not use the mixin ...), or a parametrised base whose origin uses the mixin but
+   has __orig_bases__ none of which is Generic[..] (a forwarding class).  "Extra mixin bases in any order" of the
+   property text.  (False before fix c1eb572 for the parametrised non-mixin bases in front: findings
+   K-C20-builtin-alias-first / K-C20-foreign-generic-first, now fixed.) *)
 Definition passes_over (w : world) (v : val) : bool :=
   match v with
   | VCls _ => true
@@ -127,20 +123,13 @@ Definition passes_over (w : world) (v : val) : bool :=
   | _ => false
   end.
 
-Definition foreign (w : world) (mx : nat) (v : val) : bool :=
-  match v with VAlias (VCls p) _ => negb (on_mro w mx p) | _ => false end.
+Definition foreign (w : world) (v : val) : bool :=
+  match v with VAlias (VCls p) _ => negb (uses_mixin w p) | _ => false end.
 
-Definition binding_subclass_full (mx : nat) (w : world) (c : nat) (ts xs : list val) : Prop :=
-  exists pre d post, lookup_ob w c = Some (pre ++ VAlias (VCls d) xs :: post) /\
-                     forallb (fun v => passes_over w v || foreign w mx v) pre = true /\ on_mro w mx d = true /\
-                     forallb is_base post = true /\ existsb is_generic_alias post = false /\ direct_generic w d ts.
-
-(* the guarded form that is proved (known findings K-C20-builtin-alias-first / K-C20-foreign-generic-first
-   excluded by the narrowest guard): every base in front of D[xs] is one the scan passes over *)
 Definition binding_subclass (w : world) (c : nat) (ts xs : list val) : Prop :=
   exists pre d post, lookup_ob w c = Some (pre ++ VAlias (VCls d) xs :: post) /\
-                     forallb (passes_over w) pre = true /\ forallb is_base post = true /\
-                     existsb is_generic_alias post = false /\ direct_generic w d ts.
+                     forallb (fun v => passes_over w v || foreign w v) pre = true /\ uses_mixin w d = true /\
+                     forallb is_base post = true /\ existsb is_generic_alias post = false /\ direct_generic w d ts.
 
 (* multiple inheritance / plain subclasses: class c has no __orig_bases__ of its own, classes
    `before` precede class s on its MRO and have none either (plain mixins), s has `bases` *)
@@ -172,27 +161,13 @@ Fixpoint binding_scan (w : world) (bases : list val) (ts xs : list val) : bool :
   match bases with
   | VCls _ :: r => binding_scan w r ts xs
   | VAlias (VCls d) xs' :: post =>
-      if passes_over w (VAlias (VCls d) xs') then binding_scan w post ts xs
+      if passes_over w (VAlias (VCls d) xs') || foreign w (VAlias (VCls d) xs') then binding_scan w post ts xs
       else toks_eqb xs' xs && forallb is_base post && negb (existsb is_generic_alias post) && direct_generic_b w d ts
   | _ => false
   end.
 
 Definition binding_subclass_b (w : world) (c : nat) (ts xs : list val) : bool :=
   match lookup_ob w c with Some bases => binding_scan w bases ts xs | None => false end.
-
-(* executable form of the full statement's shape (used by the harness to check the layouts of the region of
-   the known findings): the binding base is the first parametrised base that uses the mixin *)
-Fixpoint binding_scan_full (mx : nat) (w : world) (bases : list val) (ts xs : list val) : bool :=
-  match bases with
-  | VCls _ :: r => binding_scan_full mx w r ts xs
-  | VAlias (VCls d) xs' :: post =>
-      if passes_over w (VAlias (VCls d) xs') || foreign w mx (VAlias (VCls d) xs') then binding_scan_full mx w post ts xs
-      else toks_eqb xs' xs && forallb is_base post && negb (existsb is_generic_alias post) && direct_generic_b w d ts
-  | _ => false
-  end.
-
-Definition binding_subclass_full_b (mx : nat) (w : world) (c : nat) (ts xs : list val) : bool :=
-  match lookup_ob w c with Some bases => binding_scan_full mx w bases ts xs | None => false end.
 
 (* the instance was made as C[xs]() / as C() *)
 Definition oc_matches (oc : option val) (args : option (list val)) : Prop :=
@@ -229,7 +204,7 @@ Definition shape_holds_b (w : world) (c : nat) (oc : option val) (s : shape) : b
 
 (* a class body as a list of definitions (Model.Mixins.mdef).  A definition is a *method* unless
    it is a property / a non-function attribute. *)
-Definition is_method (m : mdef) : bool := match m_wrap m with WGetter _ => false | _ => true end.
+Definition is_method (m : mdef) : bool := match m_wrap m with WGetter _ | WProperty _ => false | _ => true end.
 Definition all_decos (m : mdef) : list deco := m_inner m ++ m_outer m.
 
 (* {(method, value) | method decorated with t and value} *)
@@ -264,9 +239,8 @@ Definition spec_decorated_ok (ms : list string) (cd : list mdef) (r : outcome va
    - transformations (if any) hand back something that still is the decorated function;
    - decorators made by create_decorator are applied to functions (their parameter is typed
      C bound=Callable): not written above @classmethod / @staticmethod / @property;
-   - the other attributes of the instance (properties, class attributes) are ordinary data, not callables
-     that carry decorator attributes (`claimed` additionally: reading them does not raise - see in_domain
-     and known finding K-C20-raising-property);
+   - properties are arbitrary (their getters may raise or hand out anything); the other non-function class attributes
+     are ordinary data that can be read, not objects that carry decorator attributes;
    - `type_var` / `type_vars` are the properties of GenericMixin (not overridden by a method).
    Over the whole body: dir() lists every name once. *)
 Definition tr_keeps (d : deco) : bool := match d_tr d with TrNone | TrKeep => true | _ => false end.
@@ -278,18 +252,16 @@ Definition simple_val (v : val) : bool :=
   | _ => false
   end.
 Definition no_outer (m : mdef) : bool := match m_outer m with [] => true | _ => false end.
-(* the domain of the statement: a property may do anything when read, also raise *)
-Definition getter_dom (m : mdef) : bool :=
+(* a property may do anything when read, also raise, and may hand out any object (get_decorated_functions does not
+   evaluate properties since fix 3728f44; before: finding K-C20-raising-property) *)
+Definition getter_ok (m : mdef) : bool :=
   match m_wrap m with
-  | WGetter (ARaise _) => no_outer m
+  | WProperty _ => no_outer m
   | WGetter (AVal v) => simple_val v && no_outer m
+  | WGetter _ => false
   | WClassMethod | WStaticMethod => no_outer m
   | WPlain => true
   end.
-(* known finding K-C20-raising-property: get_decorated_functions reads every attribute of the instance, so a
-   property whose getter raises makes it raise.  Guard: no such property. *)
-Definition raising_getter (m : mdef) : bool := match m_wrap m with WGetter (ARaise _) => true | _ => false end.
-Definition getter_ok (m : mdef) : bool := getter_dom m && negb (raising_getter m).
 Definition reserved (name : string) : bool := String.eqb name "type_var" || String.eqb name "type_vars".
 Definition reserved_ok (m : mdef) : bool := negb (reserved (m_name m)) || negb (is_method m).
 
@@ -301,13 +273,6 @@ Definition claimed_def (m : mdef) : bool :=
 
 Definition claimed (cd : list mdef) : bool :=
   forallb claimed_def cd && nodup_str (map m_name cd).
-
-(* the domain of the statement (claimed = in_domain + no property that raises) *)
-Definition in_domain_def (m : mdef) : bool :=
-  forallb tr_keeps (all_decos m) && forallb value_ok (all_decos m) && nodup_str (map d_type (all_decos m)) &&
-  getter_dom m && reserved_ok m.
-Definition in_domain (cd : list mdef) : bool := forallb in_domain_def cd && nodup_str (map m_name cd).
-Definition no_raising_getter (cd : list mdef) : bool := forallb (fun m => negb (raising_getter m)) cd.
 
 (* two names for one object (alias = m1 in the class body) describe the same object *)
 Definition alias_consistent (cd : list mdef) : Prop :=
